@@ -372,7 +372,7 @@ func c10Run(ctx *Ctx, t *tape.Tape) *report.Violation {
 				for _, s := range syms {
 					lt = append(lt, uint64(s))
 				}
-				v.Tape = lt
+				v.Tape, v.KeepPrefix = lt, 3
 				return v
 			}
 			if st != nil {
